@@ -374,6 +374,39 @@ def index_shape(interp: Any, t: TensorV, iv: V, st: State, node: ast.AST | None)
             bl = list(itn.lay)
             if itn.val is not None and src_axis_l is not None and len(src_axis_l) == 1 and src_axis_l[0][0].startswith("δ#"):
                 ident_rename = (src_axis_l[0][0], tuple(itn.val))
+        elif len(adv_idx) >= 2 and len(adv_idx) == len(adv_shapes) and all(itn.lay is not None for itn, _ in adv_idx):
+            # several index tensors broadcast together (``w[idx_fold[:, None], :, x]``): position p of
+            # the result belongs with position p of every index tensor, so the new axes are laid out
+            # like the index tensors' own axes -- provided every *computed* index (arange) enumerates
+            # the axis it indexes in order (value layout == layout of the indexed axis)
+            renamed: list[TensorV] | None = []
+            for itn, src_axis_l in adv_idx:
+                if itn.val is None:
+                    renamed.append(itn)  # data-dependent index: position p of the index belongs to position p of the result
+                    continue
+                v = tuple(itn.val)
+                if src_axis_l is not None and v == tuple(src_axis_l):
+                    renamed.append(itn)
+                elif (
+                    src_axis_l is not None
+                    and len(v) == 1
+                    and v[0][0].startswith("ι#")
+                    and st.norm(v[0][1]) == st.norm(L.size_of(tuple(src_axis_l)))
+                ):
+                    # arange(n) over an axis of size n: the positions of the index now enumerate that axis
+                    new_l = tuple(
+                        None if la is None else tuple(a2 for a in la for a2 in (tuple(src_axis_l) if a[0] == v[0][0] else (a,)))
+                        for la in itn.lay
+                    )
+                    renamed.append(TensorV(itn.shape, itn.dtype, new_l, itn.val))
+                else:
+                    renamed = None
+                    break
+            if renamed is not None:
+                try:
+                    bl = broadcast_lays(renamed, tuple(b), st, node, "advanced indexing")
+                except ShapeError:
+                    bl = [() if is_one(d, st) else None for d in b]
         contiguous = adv_pos == list(range(adv_pos[0], adv_pos[0] + len(adv_pos)))
         if contiguous:
             k = adv_pos[0]
@@ -399,7 +432,19 @@ def getitem(interp: Any, t: TensorV, iv: V, st: State, node: ast.AST | None) -> 
     r = index_shape(interp, t, iv, st, node)
     if r is None:
         return interp.unk("tensor index outside the modelled forms")
-    return mk(r[0], t.dtype, r[1])
+    val = None
+    if t.val is not None:
+        # full slices and new axes (``idx[:, None]``) keep every value where it was
+        keep = True
+        for x in _index_items(iv):
+            if isinstance(x, NoneV) or (isinstance(x, BuiltinV) and x.name == "Ellipsis"):
+                continue
+            if isinstance(x, TupleV) and x.kind == "slice" and all(isinstance(y, NoneV) for y in x.items):
+                continue
+            keep = False
+        if keep:
+            val = t.val
+    return mk(r[0], t.dtype, r[1], val)
 
 
 def setitem(interp: Any, t: TensorV, iv: V, val: V, st: State, node: ast.AST | None) -> None:
@@ -1041,7 +1086,19 @@ def tensor_op(interp: Any, op: str, args: list[V], kwargs: dict[str, V], st: Sta
                 raise ShapeError(f"repeat: {len(ds)} repeats for a tensor of rank {rank}", node)
             ds = [Dim.const(1)] * (rank - len(ds)) + ds
         sh = (Dim.const(1),) * (len(ds) - rank) + t.shape
-        return TensorV(tuple(a * b for a, b in zip(sh, ds)), t.dtype)  # type: ignore[operator]
+        # element order: the copies are the *major* part of a repeated axis (torch.Tensor.repeat tiles)
+        src_l = [()] * (len(ds) - rank) + list(lays(t))
+        out_l: list[Any] = []
+        for a, r, la in zip(sh, ds, src_l):
+            rn = st.norm(r)  # type: ignore[arg-type]
+            if rn.as_int() == 1:
+                out_l.append(la)
+            elif la is None:
+                out_l.append(None)
+            else:
+                rep = L.fresh_axis(rn)
+                out_l.append(None if rep is None else tuple((f"rep:{l}", d) for l, d in rep) + tuple(la))
+        return mk(tuple(a * b for a, b in zip(sh, ds)), t.dtype, out_l)  # type: ignore[operator]
     if op == "repeat_interleave":
         r, d = getd(kw("repeats", 0), st), geti(kw("dim", 1), st)
         if r is None or d is None:
@@ -1099,7 +1156,7 @@ def tensor_op(interp: Any, op: str, args: list[V], kwargs: dict[str, V], st: Sta
         if op == "new_full" and len(a) >= 2:
             a = a[:1]
         shp = size_arg(a, kwargs, st)
-        return TensorV(shp) if shp is not None else unk(op)
+        return mkfresh(st.norm_shape(shp), "any" if op == "new_empty" else t.dtype) if shp is not None else unk(op)
     if op in LIKE:
         return TensorV(t.shape, "float", t.lay)
     if op == "diag":
@@ -1289,6 +1346,21 @@ CATEGORY_LAYOUT: dict[Any, Any] = {}
 EVENT_SHAPE: dict[str, tuple] = {}  # distributions with an event axis (Dirichlet): kind -> event shape
 
 
+BATCH_LAYOUT: dict[str, list] = {}  # distribution kind key -> per-axis layouts of its batch shape
+
+
+def _elementwise_dist(interp: Any, vals: list[V], st: State, node: ast.AST, kind: str) -> DistV:
+    shapes = [v.shape if isinstance(v, TensorV) else () for v in vals]
+    batch = broadcast_shapes(shapes, st, node, kind)
+    ts = [v for v in vals if isinstance(v, TensorV)]
+    key = f"elementwise@{len(BATCH_LAYOUT)}"
+    try:
+        BATCH_LAYOUT[key] = broadcast_lays(ts, batch, st, node, kind) if ts else [None] * len(batch)
+    except ShapeError:
+        raise
+    return DistV(key, batch)
+
+
 def _remember_cat(dv: DistV, lay: Any) -> DistV:
     """a categorical distribution whose samples index an axis of known layout"""
     key = f"categorical@{len(CATEGORY_LAYOUT)}"
@@ -1322,13 +1394,13 @@ def make_dist(interp: Any, kind: str, args: list[V], kwargs: dict[str, V], st: S
         sa, sb = shp(a), shp(b)
         if sa is None or sb is None:
             return interp.unk(kind + " parameters")
-        return DistV("elementwise", broadcast_shapes([sa, sb], st, node, kind))
+        return _elementwise_dist(interp, [a, b], st, node, kind)  # type: ignore[list-item]
     if kind in ("Binomial", "Bernoulli", "Poisson", "Geometric", "Exponential"):
         vals = [v for v in list(args) + [kwargs.get(k) for k in ("total_count", "probs", "logits", "rate")] if v is not None and not isinstance(v, NoneV)]
         ss = [shp(v) for v in vals]
         if any(s is None for s in ss):
             return interp.unk(kind + " parameters")
-        return DistV("elementwise", broadcast_shapes(ss, st, node, kind))  # type: ignore[arg-type]
+        return _elementwise_dist(interp, vals, st, node, kind)
     if kind == "Dirichlet":
         s = shp(args[0] if args else kwargs.get("concentration"))
         if s is None or not s:
@@ -1344,7 +1416,11 @@ def dist_op(interp: Any, d: DistV, op: str, args: list[V], kwargs: dict[str, V],
         x = args[0] if args else kwargs.get("value")
         if not isinstance(x, TensorV):
             return interp.unk("log_prob of unknown")
-        return TensorV(broadcast_shapes([d.batch, x.shape], st, node, "log_prob"))
+        out_shape = broadcast_shapes([d.batch, x.shape], st, node, "log_prob")
+        bl = BATCH_LAYOUT.get(d.kind)
+        if bl is not None:
+            return mk(out_shape, "float", broadcast_lays([TensorV(d.batch, "float", tuple(bl)), x], out_shape, st, node, "log_prob"))
+        return TensorV(out_shape)
     if op in ("sample", "rsample"):
         ss = args[0] if args else kwargs.get("sample_shape", TupleV(()))
         items = seq_items(ss)
